@@ -307,12 +307,17 @@ pub struct Inner {
     pub max_up: usize,
     /// a TAB character was passed to write_str/write_line
     pub tab_seen: bool,
-    /// texts written since the last flush (the content of the frame being painted)
+    /// `write_str` texts since the last flush (the content of the frame being painted)
     pub cur_writes: Vec<String>,
-    /// texts of the last completed (flushed) draw
+    /// number of `write_line` calls since the last flush
+    pub cur_nl: usize,
+    /// `write_str` texts / `write_line` count of the last completed (flushed) draw
     pub last_writes: Vec<String>,
+    pub last_nl: usize,
     pub flush_times: Vec<i64>,
     pub record_flush_times: bool,
+    /// feed the grid emulator (off for pure text capture on very wide terminals)
+    pub emulate: bool,
 }
 
 #[derive(Clone, Debug)]
@@ -334,10 +339,20 @@ impl VTerm {
             max_up: 0,
             tab_seen: false,
             cur_writes: vec![],
+            cur_nl: 0,
             last_writes: vec![],
+            last_nl: 0,
             flush_times: vec![],
             record_flush_times: false,
+            emulate: true,
         })))
+    }
+
+    /// Text capture only: no grid emulation (any size is cheap).
+    pub fn raw(rows: usize, cols: usize) -> Self {
+        let v = Self::new(rows, cols);
+        v.lock().emulate = false;
+        v
     }
 
     pub fn with_snapshots(self) -> Self {
@@ -368,6 +383,26 @@ impl VTerm {
 
     pub fn rows(&self) -> Vec<String> {
         self.lock().grid.all_rows()
+    }
+
+    /// The lines of the frame painted by the last flushed draw (top alignment, no shift rows):
+    /// `draw_to_term` writes each line with one `write_str`, separates lines with
+    /// `write_line("")` and ends with one filler `write_str`. A repaired tree may write one
+    /// extra single space in front of a zero-width first line; it is recognised by count.
+    pub fn last_frame_lines(&self) -> Result<Vec<String>, String> {
+        let g = self.lock();
+        let w = &g.last_writes;
+        if w.is_empty() && g.last_nl == 0 {
+            return Ok(vec![]);
+        }
+        let n = g.last_nl + 1;
+        if w.len() == n + 1 {
+            Ok(w[..n].to_vec())
+        } else if w.len() == n + 2 && w[0] == " " {
+            Ok(w[1..n + 1].to_vec())
+        } else {
+            Err(format!("unexpected write pattern: {} write_line, writes {:?}", g.last_nl, w))
+        }
     }
 
     pub fn take_frames(&self) -> Vec<Frame> {
@@ -404,6 +439,37 @@ impl VTerm {
                 return Err(io::Error::new(f.kind, "injected terminal fault"));
             }
         }
+        if !g.emulate {
+            match &call {
+                Call::WriteStr(s) => {
+                    if s.contains('\t') {
+                        g.tab_seen = true;
+                    }
+                    g.cur_writes.push(s.clone());
+                }
+                Call::WriteLine(s) => {
+                    if s.contains('\t') {
+                        g.tab_seen = true;
+                    }
+                    g.cur_nl += 1;
+                    if !s.is_empty() {
+                        g.cur_writes.push(s.clone());
+                    }
+                }
+                Call::Flush => {
+                    g.nflush += 1;
+                    let w = std::mem::take(&mut g.cur_writes);
+                    g.last_writes = w;
+                    g.last_nl = std::mem::take(&mut g.cur_nl);
+                }
+                Call::Up(n) => g.max_up = g.max_up.max(*n),
+                _ => {}
+            }
+            if g.log_calls {
+                g.calls.push(call);
+            }
+            return Ok(());
+        }
         match &call {
             Call::Up(n) => {
                 g.max_up = g.max_up.max(*n);
@@ -432,7 +498,10 @@ impl VTerm {
                 }
                 g.grid.feed(s);
                 g.grid.feed("\n");
-                g.cur_writes.push(s.clone());
+                g.cur_nl += 1;
+                if !s.is_empty() {
+                    g.cur_writes.push(s.clone());
+                }
             }
             Call::WriteStr(s) => {
                 if s.contains('\t') {
@@ -446,6 +515,7 @@ impl VTerm {
                 g.nflush += 1;
                 let w = std::mem::take(&mut g.cur_writes);
                 g.last_writes = w;
+                g.last_nl = std::mem::take(&mut g.cur_nl);
                 if g.record_flush_times {
                     g.flush_times.push(crate::clock::now_ns());
                 }
